@@ -634,8 +634,9 @@ func VerifCtlJumpCheck() {
 
 // VerifCtlForCond: the condition clause of a three-clause for holds a value of any class
 // (literal, variable, point key or probe call) and is judged by the same truthiness table:
-// `for ; v ; { mark; break }` runs its body once iff v is truthy, and `for ; v ; v = nil
-// { mark }` evaluates the condition exactly twice when v is truthy.
+// `for ; v ; { mark; break }` runs its body once iff v is truthy; with v a variable or a
+// point key also `for ; v ; v = nil { mark }` (the loop clause makes the name a falsy
+// variable, so the body runs exactly once iff v was truthy).
 func VerifCtlForCond() {
 	w := vc3New()
 	L, N := verifnd.Param("L", 1), verifnd.Param("N", 1)
